@@ -2701,6 +2701,31 @@ def check_C04(ctx):
                         rep.uncertified("V.no-panic", "panic site %s in %s (line %s) could not be bounded for arbitrary words" % (o.kind, short(o.fn), o.line), pdb.where(o.fn))
                         continue
                 rep.ob("V.no-panic", "%s %s L%s" % (short(o.fn), o.kind, o.line), okk, "panic site on the validity path is not trivially safe", pdb.where(o.fn))
+        # the validated entry points' own bodies, for arbitrary words (is_valid, the rankings and the conversion left
+        # uninterpreted: their sites are the rules above / the gate / C06)
+        from .base import decide_site
+        kfrom = pdb.trait_impl("core::convert::From", "hand_rank::HandRank", ["u16"])["items"]["from"]
+        bodies = []
+        for path, n in ((FIVE, 5), (SIX, 6), (SEVEN, 7)):
+            opq = {ctx.method(path, "is_valid", HV)[0], ctx.method(path, "hand_rank_value_and_hand", HR)[0], ctx.method(path, "hand_rank_value", HR)[0], kfrom}
+            kvv, styv = ctx.method(path, "hand_rank_value_validated", HR)
+            bodies.append((kvv, styv, ctx.hand(path, n), opq))
+            krv, styr = ctx.method(path, "hand_rank_validated", HR)
+            bodies.append((krv, styr, ctx.hand(path, n), opq | {kvv}))
+        bodies.append(("evaluate::five_cards", None, agg(("array",), slot_atoms(5)), {ctx.method(FIVE, "hand_rank_value_validated", HR)[0]}))
+        for key_, sty_, arg_, opq in bodies:
+            sm_ = ctx.summ(key_, [("r" if sty_ is not None or key_ != "evaluate::five_cards" else "v", arg_)], sty_, opaque=opq)
+            for o in sm_.obligations:
+                if o.cond[0] == "c" and o.cond[1]:
+                    continue
+                label = "%s %s L%s" % (short(o.fn), o.kind, o.line)
+                dec_, how_ = decide_site(ctx, o) if o.cond[0] != "c" else (False, {})
+                if dec_ is True:
+                    rep.ob("V.no-panic", label, True)
+                elif dec_ is False:
+                    rep.ob("V.no-panic", label, False, "panic site (%s, line %s) in %s is reached and fails for %s" % (o.kind, o.line, short(o.fn), describe_env(how_) if how_ else "every hand"), pdb.where(o.fn))
+                else:
+                    rep.uncertified("V.no-panic", "panic site %s of a validated entry point could not be decided for arbitrary words" % label, pdb.where(o.fn))
     ctx.guard("V.no-panic", nopanic)
     # on the valid edge the hand is made of distinct real cards: ranking returns (and is non-zero) by C01's premises
     tabs = ctx.guard("T", premise_tables, ctx, "T", "lengths")
